@@ -28,6 +28,10 @@ def run(chk):
     executor_contracts.item_in_child_context(chk, "C16")     # a branch is a child context of its own: no batch-level summary generator on it
     from . import context_contracts
     context_contracts.batch_summary_wiring(chk, "C16")
+    from . import state_contracts as _S
+    _S.raise_if_orphaned_contract(chk, "C16")        # re-traversing a summarised context must not be stopped as 'orphaned' (only descendants of a context completed in THIS invocation are)
+    executor_contracts.create_result_items(chk, "C16")       # the rebuilt batch is classified like the first one
+    executor_contracts.batch_replay_consistency(chk, "C16")
     from . import batch_accessors
     batch_accessors.summary_generators(chk, "C16")            # the default summary is small whatever the result: counts and enum values only
     from . import c15
